@@ -181,7 +181,7 @@ func (p pat) match(u []part, minWild int) (bool, map[string]string) {
 			return false, nil
 		}
 		if name, ok := paramName(pp.v); ok {
-			if u[i].v == "" {
+			if u[i].v == "" && !emptyParam {
 				return false, nil
 			}
 			params[name] = u[i].v
@@ -238,6 +238,16 @@ type outcome struct {
 // carries a parameter of that name (the lookup keeps the parameters of a branch it
 // abandoned for an ancestor wildcard; the statement does not forbid that).
 func agrees(obs, want outcome, ds []decl, q request) bool {
+	if hasEmptyInterior(q.URL) && !emptyParamAlt {
+		// the reading "a parameter is one non-empty segment" is accepted too
+		emptyParamAlt = true
+		strict := specOutcomeAs(ds, q, reading0)
+		ok := agrees(obs, strict, ds, q)
+		emptyParamAlt = false
+		if ok {
+			return true
+		}
+	}
 	if q.Trail != "" && len(obs.Applied) == 0 {
 		return true // reading "a trailing separator starts a further, empty segment": nothing needs to match
 	}
@@ -327,7 +337,21 @@ func (r reading) String() string {
 var reading0 = reading{false, 0} // the reading the implementation is built on
 var altReadings = []reading{{false, 1}, {true, 0}, {true, 1}}
 
+// emptyParam: whether {name} also stands for an empty segment. The statement does not say; an empty segment inside
+// a URL only arises from "//" (an absolute URL embedded in the path). For such requests the expectation is computed
+// with the reading the engine implements (it does), and the other reading is accepted as well (see agrees).
+var emptyParam bool
+var emptyParamAlt bool // recursion guard of agrees
+
+func hasEmptyInterior(url string) bool { return strings.Contains(strings.Trim(url, "./"), "//") }
+
 func specOutcome(ds []decl, q request, rd reading) outcome {
+	emptyParam = hasEmptyInterior(q.URL)
+	defer func() { emptyParam = false }()
+	return specOutcomeAs(ds, q, rd)
+}
+
+func specOutcomeAs(ds []decl, q request, rd reading) outcome {
 	u := splitParts(q.URL)
 	var best *pat
 	var bestParams map[string]string
@@ -1046,6 +1070,25 @@ func genRequest(ds []decl) *rapid.Generator[request] {
 			} else {
 				host = append(host, "zz")
 			}
+		}
+		// one request in twelve carries an absolute URL inside its path (a redirect / proxy target:
+		// shop.com/out/https://partner.io/orders/77), built from another declaration of the set
+		if rapid.IntRange(0, 11).Draw(t, "embedded-url") == 0 {
+			o := parsePat(rapid.SampledFrom(ds).Draw(t, "embedded-from").URL)
+			oh, op := []string{}, []string{}
+			for _, pp := range o.fixed {
+				v := pp.v
+				if _, ok := paramName(v); ok {
+					v = rapid.SampledFrom(genValues).Draw(t, "embedded-value")
+				}
+				if pp.host {
+					oh = append(oh, v)
+				} else {
+					op = append(op, v)
+				}
+			}
+			path = append(path, rapid.SampledFrom([]string{"https:", "http:"}).Draw(t, "scheme"), "", strings.Join(oh, "."))
+			path = append(path, op...)
 		}
 		q := request{Method: rapid.SampledFrom(reqMethods).Draw(t, "method"), URL: strings.Join(append([]string{strings.Join(host, ".")}, path...), "/")}
 		if rapid.IntRange(0, 7).Draw(t, "trail") == 0 {
